@@ -81,6 +81,26 @@ func (c *c17InnerPrivCommit) Define(api frontend.API) error {
 	return nil
 }
 
+// two commitments (the hash-to-field of every commitment after the first starts from a fresh state)
+type c17InnerCommit2 struct {
+	P, Q frontend.Variable
+	N    frontend.Variable `gnark:",public"`
+}
+
+func (c *c17InnerCommit2) Define(api frontend.API) error {
+	api.AssertIsEqual(api.Mul(c.P, c.Q), c.N)
+	cm, err := api.(frontend.Committer).Commit(c.P, c.N)
+	if err != nil {
+		return err
+	}
+	cm2, err := api.(frontend.Committer).Commit(c.Q, cm)
+	if err != nil {
+		return err
+	}
+	api.AssertIsDifferent(cm2, c.Q)
+	return nil
+}
+
 // another inner circuit with the same public interface
 type c17Other struct {
 	P, Q frontend.Variable
@@ -517,6 +537,7 @@ func runC17(args []string) int {
 	}{
 		{"mul", func() frontend.Circuit { return &c17Inner{} }, func(p, q int64) frontend.Circuit { return &c17Inner{P: p, Q: q, N: p * q} }},
 		{"mul+commitment", func() frontend.Circuit { return &c17InnerCommit{} }, func(p, q int64) frontend.Circuit { return &c17InnerCommit{P: p, Q: q, N: p * q} }},
+		{"mul+two commitments", func() frontend.Circuit { return &c17InnerCommit2{} }, func(p, q int64) frontend.Circuit { return &c17InnerCommit2{P: p, Q: q, N: p * q} }},
 	} {
 		if inner.name == "mul+commitment" && !o.Thorough() && o.Seed%2 == 0 {
 			continue
